@@ -1443,10 +1443,11 @@ func (c ipamClient) assignFromExistingBlock(ctx context.Context, config *IPAMCon
 		return []net.IPNet{}, nil
 	}
 
-	// Increment handle count.
+	// Increment handle count by the number of addresses actually taken from this block, which may be
+	// fewer than requested if the block did not have enough free addresses.
 	if handleID != nil {
 		logCtx.Debug("Incrementing handle")
-		err := c.incrementHandle(ctx, *handleID, blockCIDR, num, maxAlloc)
+		err := c.incrementHandle(ctx, *handleID, blockCIDR, len(ips), maxAlloc)
 		if err != nil {
 			// If incrementHandle fails due to maxAlloc constraint, return the error so caller can handle it.
 			// The IPs allocated in the block's memory structure won't be persisted since
@@ -1467,7 +1468,7 @@ func (c ipamClient) assignFromExistingBlock(ctx context.Context, config *IPAMCon
 			logCtx.Debug("Decrementing handle since we failed to allocate IP(s)")
 			// Extend timeout for the cleanup, if needed.
 			cleanupCtx, cancel := contextForCleanup(ctx)
-			if err := c.decrementHandle(cleanupCtx, *handleID, blockCIDR, num, nil); err != nil {
+			if err := c.decrementHandle(cleanupCtx, *handleID, blockCIDR, len(ips), nil); err != nil {
 				logCtx.WithError(err).Warnf("Failed to decrement handle")
 			}
 			cancel()
